@@ -104,6 +104,15 @@ PAIRS6 = {
 FOCUS[6] = ("it arises where TWO features of the library meet - each works on its own, the combination is what breaks (under the change). "
             "Feature combinations to aim at for this task: {region}. Read how the two sides talk to each other (which object is passed, which option is "
             "forwarded or forgotten, which cache or key is shared) and break that seam; every one of your three changes must need such a combination to show.")
+FOCUS[7] = ("it shows only through an entry point or calling convention OTHER than the everyday `pane.convert(value, T)` / `pane.from_data(value, T)` on a "
+            "fresh type: the dataclass classmethods and instance methods (Cls.from_data, Cls.from_obj, Cls.from_json / from_yaml / from_jsons / from_yamls, "
+            "x.into_data, x.dict, x.write_json / write_yaml, Cls.make_unchecked, Cls.from_dict_unchecked, x.__replace__, copy / deepcopy / pickle of instances), "
+            "Converter objects obtained from pane.convert.make_converter and used directly (.convert, .try_convert, .collect_errors, .into_data, .expected), the "
+            "keyword variants (custom=, ty= of into_data and of the writers, set_only= / rename= of dict), into_data with the type left out (inferred from the "
+            "value), the module-level pane.io functions as opposed to the methods, behaviour at class-definition time (what a class statement accepts or "
+            "refuses, and when), and introspection that users rely on (inspect.signature of the class, repr, __pane_info__ fields, the ConvertError.tree "
+            "attribute and str() of the error). Pick entry points that make sense for THIS property; each of your three changes must leave the everyday path "
+            "correct and break one of these other ways in.")
 FOCUS[4] = ("it lives in the region of the library named below and shows only under a narrow circumstance that a real user could still hit "
             "(one pass or one direction only, one member of a family, a second call, an unusual but legal input or option combination). "
             "REGION for this task: {region}. All three changes must be made inside that region; read it closely first and look for behaviour that the "
